@@ -86,6 +86,10 @@ func c13Container(closeErrs map[string]error) *restful.Container {
 			cw.Close()
 			pt("handler.closed")
 			closeErrs[req.PathParameter("id")] = cw.Close()
+			// a Flush on the closed writer (http.Flusher is part of its interface) must not reach
+			// the compressor that went back to the provider
+			pt("handler.flush-after-close")
+			cw.Flush()
 		} else {
 			closeErrs[req.PathParameter("id")] = fmt.Errorf("not compressing")
 		}
